@@ -36,8 +36,8 @@ type SpecData struct {
 	InfoHash, Info, Bitfield                                    []byte
 	Port                                                        int
 	Name                                                        []byte
-	Trackers                                                    [][]string
-	URLList, FixedPeers                                         []string
+	Trackers                                                    [][][]byte // byte strings: JSON strings cannot carry invalid UTF-8
+	URLList, FixedPeers                                         [][]byte
 	AddedAtUnix                                                 int64
 	TZOffsetMin                                                 int
 	Down, Up, Wasted                                            int64
@@ -75,17 +75,17 @@ func genSpec(t *rapid.T) *SpecData {
 	s.Port = rapid.SampledFrom([]int{0, 1, 6881, 50000, 65535, -1, 1 << 20}).Draw(t, "port")
 	s.Name = []byte(genStr(t, "name"))
 	for i := rapid.IntRange(0, 3).Draw(t, "ntiers"); i > 0; i-- {
-		var tier []string
+		var tier [][]byte
 		for j := rapid.IntRange(0, 2).Draw(t, "tierlen"); j > 0; j-- {
-			tier = append(tier, genStr(t, "tr"))
+			tier = append(tier, []byte(genStr(t, "tr")))
 		}
 		s.Trackers = append(s.Trackers, tier)
 	}
 	for i := rapid.IntRange(0, 2).Draw(t, "nurl"); i > 0; i-- {
-		s.URLList = append(s.URLList, genStr(t, "url"))
+		s.URLList = append(s.URLList, []byte(genStr(t, "url")))
 	}
 	for i := rapid.IntRange(0, 2).Draw(t, "npeer"); i > 0; i-- {
-		s.FixedPeers = append(s.FixedPeers, genStr(t, "peer"))
+		s.FixedPeers = append(s.FixedPeers, []byte(genStr(t, "peer")))
 	}
 	s.AddedAtUnix = rapid.SampledFrom([]int64{0, 1, 1700000000, 1700000001, 4102444800, 951782400}).Draw(t, "added")
 	s.TZOffsetMin = rapid.SampledFrom([]int{0, 0, 60, -300, 330, 14 * 60, -12 * 60}).Draw(t, "tz")
@@ -135,10 +135,22 @@ func genSpecCase(t *rapid.T) SpecCase {
 	return c
 }
 
+func strs(b [][]byte) []string {
+	var out []string
+	for _, x := range b {
+		out = append(out, string(x))
+	}
+	return out
+}
+
 func (s *SpecData) toSpec() *boltdbresumer.Spec {
 	loc := time.FixedZone("x", s.TZOffsetMin*60)
+	var tiers [][]string
+	for _, t := range s.Trackers {
+		tiers = append(tiers, strs(t))
+	}
 	return &boltdbresumer.Spec{
-		InfoHash: s.InfoHash, Port: s.Port, Name: string(s.Name), Trackers: s.Trackers, URLList: s.URLList, FixedPeers: s.FixedPeers,
+		InfoHash: s.InfoHash, Port: s.Port, Name: string(s.Name), Trackers: tiers, URLList: strs(s.URLList), FixedPeers: strs(s.FixedPeers),
 		Info: s.Info, Bitfield: s.Bitfield, AddedAt: time.Unix(s.AddedAtUnix, 0).In(loc),
 		BytesDownloaded: s.Down, BytesUploaded: s.Up, BytesWasted: s.Wasted, SeededFor: time.Duration(s.SeededForNs),
 		Started: s.Started, StopAfterDownload: s.StopAfterDownload, StopAfterMetadata: s.StopAfterMetadata, CompleteCmdRun: s.CmdRun, Sequential: s.Seqn, Version: s.Version,
@@ -147,8 +159,8 @@ func (s *SpecData) toSpec() *boltdbresumer.Spec {
 
 func hasInvalidUTF8(s *SpecData) bool {
 	bad := false
-	chk := func(x string) {
-		if !utf8.ValidString(x) {
+	chk := func(x []byte) {
+		if !utf8.Valid(x) {
 			bad = true
 		}
 	}
@@ -243,7 +255,7 @@ func runSpecCase(c SpecCase) core.Result {
 		m := model[op.ID]
 		switch op.Op {
 		case "write":
-			if hasInvalidUTF8(op.Spec) && core.FindingOpen("C14-invalid-utf8-in-string-lists") {
+			if hasInvalidUTF8(op.Spec) && core.FindingOpen("C14-invalid-utf8-in-string-lists") && !core.Replaying() {
 				res.Excluded = "C14-invalid-utf8-in-string-lists"
 				return res
 			}
